@@ -1,7 +1,264 @@
-(* WireNum.v — wire interfaces of the "num" area (see docs/AGENT_GUIDE.md for the id range).
-   [run_num c] receives the whole case (first element = interface id). *)
-From Coq Require Import String.
-From MW Require Import Model.Base Model.Datum.
+(* WireNum.v — wire interfaces of the "num" area (ids 10-29).
+   [run_num c] receives the whole case (first element = interface id).
+
+   A number travels as  0 s m (Fixnum)  1 s m (BigInt)  2 sn |n| sd |d| (Rational,
+   as stored)  3 bits (Float);  4 stands for a non-number argument (#t).
+     10 op a b        Number API, binary:  0 + 1 - 2 * 3 / 4 quotient 5 % 6 modulo
+                      7 == 8 partial_cmp 9 < 10 <= 11 > 12 >=
+     11 op a          Number API, unary: 0 abs 1 floor 2 ceil 3 truncate 4 round
+                      5 numerator 6 denominator 7 to_exact 8 to_inexact 9 is_integer
+                      10 to_i64 11 to_u64 12 to_u32 13 to_usize 14 to_f64 15 is_zero
+     11 16 e a        pow(e)
+     12 proc args..   the builtin procedure through Vm::eval of (proc args..)
+     13 op ..         num-rational on Rational32::new_raw values (see [run_ratio])
+   The model has no access to the build profile of the harness, so a result line is
+   the Debug line, followed by `|` and the Release line when they differ.        *)
+From Coq Require Import String ZArith.
+From MW Require Import Model.Base Model.F64 Model.F64More Model.Num Model.Datum
+  Model.Ratio32 Model.NumArith.
 Open Scope N_scope.
 
-Definition run_num (c : list N) : list N := S_ "BADCASE".
+Definition sgn (s m : N) : Z := if s =? 0 then Z.of_N m else - Z.of_N m.
+
+Definition decode_num (l : list N) : option (num * list N) :=
+  match l with
+  | 0 :: s :: m :: r => Some (Fixnum (sgn s m), r)
+  | 1 :: s :: m :: r => Some (BigInt (sgn s m), r)
+  | 2 :: sn :: n :: sd :: d :: r => Some (Rational (sgn sn n) (sgn sd d), r)
+  | 3 :: b :: r => Some (Float (f64_of_bits (Z.of_N b)), r)
+  | _ => None
+  end.
+Definition decode_arg (l : list N) : option (arg * list N) :=
+  match l with
+  | 4 :: r => Some (AOther, r)
+  | _ => match decode_num l with Some (n, r) => Some (ANum n, r) | None => None end
+  end.
+Fixpoint decode_args (fuel : nat) (l : list N) : option (list arg) :=
+  match fuel with
+  | O => None
+  | S f =>
+      match l with
+      | [] => Some []
+      | _ => match decode_arg l with
+             | Some (a, r) => match decode_args f r with Some t => Some (a :: t) | None => None end
+             | None => None
+             end
+      end
+  end.
+
+Definition show_f64 (f : f64) : list N :=
+  if f64_is_nan f then S_ "nan" else show_hex (Z.to_N (f64_bits f)).
+Definition show_num (n : num) : list N :=
+  match n with
+  | Fixnum z => S_ " fix " ++ show_Z z
+  | BigInt z => S_ " big " ++ show_Z z
+  | Rational a b => S_ " rat " ++ show_Z a ++ [47] ++ show_Z b
+  | Float f => S_ " flo " ++ show_f64 f
+  end.
+Definition show_ratio (r : ratio) : list N := 32 :: show_Z (fst r) ++ [47] ++ show_Z (snd r).
+Definition show_b (b : bool) : list N := if b then S_ " true" else S_ " false".
+Definition show_cmp (c : comparison) : list N :=
+  match c with Lt => S_ " Less" | Eq => S_ " Equal" | Gt => S_ " Greater" end.
+Definition show_opt {A} (f : A -> list N) (o : option A) : list N :=
+  match o with Some a => f a | None => S_ " none" end.
+Definition show_Zs (z : Z) : list N := 32 :: show_Z z.
+Definition show_res (r : res) : list N :=
+  match r with RNum n => show_num n | RBool true => S_ " #t" | RBool false => S_ " #f" end.
+
+Definition show_o {A} (f : A -> list N) (o : out A) : list N :=
+  match o with
+  | Ok a => S_ "OK" ++ f a
+  | Err e => if e =? E_LIBM then S_ "LIBM" else S_ "ERR"
+  | Panic _ => S_ "PANIC"
+  | NoFuel => S_ "NOFUEL"
+  end.
+
+Definition eq_line (a b : list N) : bool := if list_eq_dec N.eq_dec a b then true else false.
+(* both profiles on one line *)
+Definition both (f : profile -> list N) : list N :=
+  let d := f Debug in
+  let r := f Release in
+  if eq_line d r then d else d ++ [124] ++ r.
+
+Definition run_binary (op : N) (a b : num) (p : profile) : list N :=
+  match op with
+  | 0 => show_o show_num (num_add p a b)
+  | 1 => show_o show_num (num_sub p a b)
+  | 2 => show_o show_num (num_mul p a b)
+  | 3 => show_o show_num (num_div p a b)
+  | 4 => show_o (show_opt show_num) (num_quotient p a b)
+  | 5 => show_o (show_opt show_num) (num_rem p a b)
+  | 6 => show_o (show_opt show_num) (num_modulo p a b)
+  | 7 => show_o show_b (num_eq p a b)
+  | 8 => show_o (show_opt show_cmp) (num_partial_cmp p a b)
+  | 9 => show_o show_b (num_lt p a b)
+  | 10 => show_o show_b (num_le p a b)
+  | 11 => show_o show_b (num_gt p a b)
+  | 12 => show_o show_b (num_ge p a b)
+  | _ => S_ "BADCASE"
+  end.
+
+Definition run_unary (op : N) (a : num) (p : profile) : list N :=
+  match op with
+  | 0 => show_o show_num (num_abs p a)
+  | 1 => show_o show_num (num_floor p a)
+  | 2 => show_o show_num (num_ceil p a)
+  | 3 => show_o show_num (num_truncate a)
+  | 4 => show_o show_num (num_round p a)
+  | 5 => show_o show_num (Ok (num_numerator a))
+  | 6 => show_o show_num (Ok (num_denominator a))
+  | 7 => show_o (show_opt show_num) (num_to_exact p a)
+  | 8 => show_o (show_opt show_num) (num_to_inexact a)
+  | 9 => show_o show_b (Ok (num_is_integer a))
+  | 10 => show_o (show_opt show_Zs) (num_to_i64 a)
+  | 11 => show_o (show_opt show_Zs) (num_to_u64 a)
+  | 12 => show_o (show_opt show_Zs) (num_to_u32 a)
+  | 13 => show_o (show_opt show_Zs) (num_to_usize a)
+  | 14 => show_o (show_opt (fun f => 32 :: show_f64 f)) (Ok (num_to_f64 a))
+  | 15 => show_o show_b (num_is_zero p a)
+  | _ => S_ "BADCASE"
+  end.
+
+Definition run_builtin (proc : N) (args : list arg) (p : profile) : list N :=
+  show_o show_res
+    match proc with
+    | 0 => b_plus p args | 1 => b_minus p args | 2 => b_multiply p args | 3 => b_divide p args
+    | 4 => b_num_comp CEq p args | 5 => b_num_comp CLt p args | 6 => b_num_comp CGt p args
+    | 7 => b_num_comp CLe p args | 8 => b_num_comp CGe p args
+    | 9 => b_minmax false p args | 10 => b_minmax true p args
+    | 11 => b_upred PZero p args | 12 => b_upred PPositive p args | 13 => b_upred PNegative p args
+    | 14 => b_upred POdd p args | 15 => b_upred PEven p args
+    | 16 => b_unary UAbs p args
+    | 17 => b_intdiv IQuotient p args | 18 => b_intdiv IRemainder p args | 19 => b_intdiv IModulo p args
+    | 20 => b_unary UFloor p args | 21 => b_unary UCeiling p args | 22 => b_unary UTruncate p args
+    | 23 => b_unary URound p args | 24 => b_unary UNumerator p args | 25 => b_unary UDenominator p args
+    | 26 => b_expt p args
+    | 27 => b_unary UExactInexact p args | 28 => b_unary UInexactExact p args
+    | _ => Err 99
+    end.
+
+(* 13: num-rational directly.  13 op a [b]; ratios as sn |n| sd |d| *)
+Definition decode_ratio (l : list N) : option (ratio * list N) :=
+  match l with
+  | sn :: n :: sd :: d :: r => Some ((sgn sn n, sgn sd d), r)
+  | _ => None
+  end.
+Definition run_ratio1 (op : N) (e : Z) (a : ratio) (p : profile) : list N :=
+  let w := 32%Z in
+  match op with
+  | 0 => show_o show_ratio (rnew p w (fst a) (snd a))
+  | 6 => show_o show_ratio (rfloor p w a)
+  | 7 => show_o show_ratio (rceil p w a)
+  | 8 => show_o show_ratio (rtrunc w a)
+  | 9 => show_o show_ratio (rround p w a)
+  | 10 => show_o show_ratio (rfract w a)
+  | 11 => show_o show_ratio (rpow p w a e)
+  | 12 => show_o show_ratio (rabs p w a)
+  | 13 => show_o (show_opt (fun f => 32 :: show_f64 f)) (Ok (rto_f64 a))
+  | 19 => show_o show_Zs (rto_integer w a)
+  | 20 => show_o show_Zs (igcd p w (fst a) (snd a))
+  | 21 => show_o show_Zs (ipow p w (fst a) e)
+  | _ => S_ "BADCASE"
+  end.
+Definition run_ratio2 (op : N) (a b : ratio) (p : profile) : list N :=
+  let w := 32%Z in
+  match op with
+  | 1 => show_o (show_opt show_ratio) (rchecked_add p w a b)
+  | 2 => show_o (show_opt show_ratio) (rchecked_sub p w a b)
+  | 3 => show_o (show_opt show_ratio) (rchecked_mul p w a b)
+  | 4 => show_o (show_opt show_ratio) (rchecked_div p w a b)
+  | 5 => show_o show_cmp (rcmp p w a b)
+  | 14 => show_o show_ratio (rrem p w a b)
+  | 15 => show_o show_ratio (rdiv p w a b)
+  | 16 => show_o show_ratio (radd p w a b)
+  | 17 => show_o show_ratio (rsub p w a b)
+  | _ => S_ "BADCASE"
+  end.
+
+(* 14 op k a1..ak b1..bm : the binary API operation on every pair (ai, bj) — the
+   operands are the k resp. m representations of two values (C08 representation
+   independence); 15 a b : == partial_cmp < <= > >= on the API; 16 args.. : the
+   procedures = < > <= >= min max through Vm::eval on the same arguments;
+   17 a b c : each of = < > <= >= on (a b) (b c) (a c) (a b c) *)
+Fixpoint decode_nums (fuel : nat) (l : list N) : option (list num) :=
+  match fuel with
+  | O => None
+  | S f =>
+      match l with
+      | [] => Some []
+      | _ => match decode_num l with
+             | Some (a, r) => match decode_nums f r with Some t => Some (a :: t) | None => None end
+             | None => None
+             end
+      end
+  end.
+Definition semi (l : list N) : list N := 59 :: l.
+Definition run_indep (op : N) (xs ys : list num) (p : profile) : list N :=
+  S_ "ALL" ++ flat_map (fun a => flat_map (fun b => semi (run_binary op a b p)) ys) xs.
+Definition run_cmp6 (a b : num) (p : profile) : list N :=
+  S_ "CMP" ++ flat_map (fun op => semi (run_binary op a b p)) [7; 8; 9; 10; 11; 12].
+Definition run_vm7 (args : list arg) (p : profile) : list N :=
+  S_ "VM" ++ flat_map (fun proc => semi (run_builtin proc args p)) [4; 5; 6; 7; 8; 9; 10].
+Definition run_tri (a b c : arg) (p : profile) : list N :=
+  S_ "TRI" ++ flat_map (fun proc =>
+      flat_map (fun args => semi (run_builtin proc args p)) [[a; b]; [b; c]; [a; c]; [a; b; c]])
+    [4; 5; 6; 7; 8].
+
+Definition run_num (c : list N) : list N :=
+  match c with
+  | 14 :: op :: k :: r =>
+      match decode_nums (S (length r)) r with
+      | Some l => both (run_indep op (firstn (N.to_nat k) l) (skipn (N.to_nat k) l))
+      | None => S_ "BADCASE"
+      end
+  | 15 :: r =>
+      match decode_nums (S (length r)) r with
+      | Some [a; b] => both (run_cmp6 a b)
+      | _ => S_ "BADCASE"
+      end
+  | 16 :: r =>
+      match decode_args (S (length r)) r with
+      | Some args => both (run_vm7 args)
+      | None => S_ "BADCASE"
+      end
+  | 17 :: r =>
+      match decode_args (S (length r)) r with
+      | Some [a; b; c] => both (run_tri a b c)
+      | _ => S_ "BADCASE"
+      end
+  | 10 :: op :: r =>
+      match decode_num r with
+      | Some (a, r1) => match decode_num r1 with
+                        | Some (b, []) => both (run_binary op a b)
+                        | _ => S_ "BADCASE"
+                        end
+      | None => S_ "BADCASE"
+      end
+  | 11 :: 16 :: e :: r =>
+      match decode_num r with
+      | Some (a, []) => both (fun p => show_o show_num (num_pow p a (Z.of_N e)))
+      | _ => S_ "BADCASE"
+      end
+  | 11 :: op :: r =>
+      match decode_num r with
+      | Some (a, []) => both (run_unary op a)
+      | _ => S_ "BADCASE"
+      end
+  | 12 :: proc :: r =>
+      match decode_args (S (length r)) r with
+      | Some args => both (run_builtin proc args)
+      | None => S_ "BADCASE"
+      end
+  | 13 :: 18 :: bits :: [] =>
+      both (fun p => show_o (show_opt show_ratio) (ratio32_from_f64 p (f64_of_bits (Z.of_N bits))))
+  | 13 :: op :: es :: e :: r =>
+      match decode_ratio r with
+      | Some (a, []) => both (run_ratio1 op (sgn es e) a)
+      | Some (a, r1) => match decode_ratio r1 with
+                        | Some (b, []) => both (run_ratio2 op a b)
+                        | _ => S_ "BADCASE"
+                        end
+      | None => S_ "BADCASE"
+      end
+  | _ => S_ "BADCASE"
+  end.
